@@ -25,6 +25,15 @@ Theorem C06_definition : forall (A : list (list R)) (L phi : list R) (vt rt : R)
 Proof. exact definition_deg. Qed.
 Print Assumptions C06_definition.
 
+(* linear=True: |sum_i |A_ji| X_it|  <=  L_j + max(abs_tol, rel_tol * L_j)  (lsum a X t = sum_i |a_i| X_it) *)
+Theorem C06_definition_linear : forall (A : list (list R)) (L phi : list R) (vt rt : R) (X : list (list R)) (T : nat),
+  length A = length L ->
+  net_is_feasible RF (net_of A L phi vt rt) X T true None None = true <->
+  forall j t, (j < length L)%nat -> (t < T)%nat ->
+    Rabs (lsum (nth j A []) X t) <= nth j L 0 + Rmax vt (rt * nth j L 0).
+Proof. exact definition_linear. Qed.
+Print Assumptions C06_definition_linear.
+
 (* The two computation orders used in the code give the same complex currents:
    network side  A @ (X.T * e^{i phi}).T   vs.   algorithm side  [v cos phi; v sin phi] @ X. *)
 Theorem C06_orders_agree : forall (a : list R) (cis : list (R * R)) (X : list (list R)) (t : nat),
